@@ -535,6 +535,21 @@ theorem lock_extent_protects (g : Grid) (op : Op) (rs : List Rat) (hl : g.lockEx
         · exact adjustSampling_extent _ _ _), adjustGpts_extent]
       exact he
 
+/-! ### check_match -/
+
+/-- `Grid.check_match` accepts exactly the pairs whose defined extents are `isclose` and whose defined gpts are equal
+(same number of dimensions) -/
+theorem check_match_spec (g o : Grid)
+    (hlen : ∀ a b, g.extent = some a → o.extent = some b → a.length = b.length) :
+    checkMatch g o = .ok () ↔
+      (∀ a b, g.extent = some a → o.extent = some b → all2 isclose a b = true) ∧
+      (∀ a b, g.gpts = some a → o.gpts = some b → a = b) := by
+  unfold checkMatch
+  rcases hge : g.extent with _ | a <;> rcases hoe : o.extent with _ | b <;>
+    rcases hgg : g.gpts with _ | m <;> rcases hog : o.gpts with _ | n <;> simp_all
+  all_goals
+    rcases hc : all2 isclose a b <;> simp_all
+
 /-! ### what the locks do not protect (known findings, DESIGN §7 F8): negation witnesses -/
 
 /-- `lock_sampling` does not protect the sampling: `Grid(sampling=.3, lock_sampling=True).extent = 1` ends with
